@@ -160,6 +160,8 @@ type flatDec struct {
 	n    int
 	fail string
 	eof  bool
+	// bytesNonNil: a nil []byte is decoded as an empty non-nil one (IPLD codecs)
+	bytesNonNil bool
 }
 
 // tryByte pulls one byte from the reader; ok=false at end of input / error.
@@ -304,6 +306,9 @@ func (d *flatDec) dec(t types.Type) Value {
 			return out
 		}
 		if ex.branch(mkEq(n, byteConst(0xff)), "codec-nilslice") {
+			if b, ok := ut.Elem().Underlying().(*types.Basic); ok && b.Kind() == types.Uint8 && d.bytesNonNil {
+				return []Value{}
+			}
 			return []Value(nil)
 		}
 		if !ex.branch(mkCmp(OpULe, n, byteConst(16)), "codec-slicelen") {
@@ -409,7 +414,8 @@ func (ex *Exec) mkNode(ptr Iface, proto *nativeObj) Value {
 }
 
 func doDecode(ex *Exec, fr *Frame, bs *builderState, r Value, allowTrailing bool) Value {
-	d := &flatDec{ex: ex, fr: fr, r: r}
+	// (bindnode decodes an empty byte string into an empty, non-nil []byte)
+	d := &flatDec{ex: ex, fr: fr, r: r, bytesNonNil: true}
 	v := d.dec(deref(bs.proto.goPtrType))
 	if d.fail != "" {
 		return ex.codecError(d.fail)
